@@ -38,6 +38,7 @@ pub fn check(case: &Case) -> CaseResult {
     r.class_if(case.resps.len() >= 2, "several_responses");
     r.class_if(enc.bytes.len() > 4096, "over_4k");
     r.class_if(enc.bytes.len() > 8192, "over_8k");
+    r.class_if(enc.bytes.len() > 65_536, "over_64k");
     r.class_if(case.seg.cuts_inside(enc.bytes.len()), "segmented");
     r.class(match case.flavour {
         Flavour::Blocking => "blocking",
@@ -98,7 +99,7 @@ pub fn check(case: &Case) -> CaseResult {
 fn strategy(tier: Tier) -> BoxedStrategy<Case> {
     let max_payload = tier.pick(20_000, 40_000);
     (
-        wire::responses(6, max_payload, tier.pick(6_000, 20_000)),
+        wire::responses_maybe_huge(6, max_payload, tier.pick(6_000, 20_000), 40),
         seg_strategy(6000),
         (0..3usize).prop_map(|i| FLAVOURS[i]),
         prop_oneof![3 => Just(0u8), 1 => Just(1u8), 1 => Just(2u8)],
